@@ -3,6 +3,7 @@
 -/
 import Kevo.Model.WalLog
 import Kevo.Spec.Log
+import Kevo.Proofs.WalCodec
 namespace Kevo.Proofs.Wal
 open Kevo Kevo.Wal Kevo.Spec
 
@@ -24,37 +25,506 @@ def runLog (p : WalParams) (crc : Bytes → Nat) (ops : List LogOp) : Log :=
     | .rotate => l.rotate
     | .reopen => l.reopen p crc) {}
 
-theorem readEntry_encodeEntry (p : WalParams) (hp : p.WF) (crc : Bytes → Nat) (e : Entry) (he : EntryWF p e)
-    (rest : Bytes) (fuel : Nat) (hf : (encodeEntry p crc e).length < fuel) :
-    readEntry p crc fuel {} (encodeEntry p crc e ++ rest) = (.ok (norm p e), {}, rest) := by
-  sorry
+theorem EntryWF.ok {p : WalParams} {e : Entry} (h : EntryWF p e) : EntryOK p e :=
+  ⟨h.1, h.2.1, h.2.2.1, fun _ => h.2.2.2⟩
 
-theorem replay_file (p : WalParams) (hp : p.WF) (crc : Bytes → Nat) (es : List Entry) (hes : ∀ e ∈ es, EntryWF p e) :
-    let r := replayFile p crc (es.flatMap (encodeEntry p crc))
-    r.entries = es.map (norm p) ∧ r.skipped = 0 ∧ r.outcome = .ok := by
-  sorry
+/-! ### the abstract log alone -/
 
-theorem replay_program (p : WalParams) (hp : p.WF) (crc : Bytes → Nat) (ops : List LogOp)
-    (hops : ∀ o ∈ ops, OpWF p o) (hov : ops.length + 1 < p.maxSeq) :
-    let l := runLog p crc ops
-    let a := ALog.run ops
-    (l.replay p crc).entries = a.entries.map (norm p) ∧ (l.replay p crc).isErr = false ∧ l.next = a.next := by
-  sorry
+def stamp (seq : Nat) : Nat × Bytes × Bytes → Entry := fun (op, k, v) => { op, seq, key := k, val := v }
 
-theorem entriesFrom_spec (p : WalParams) (hp : p.WF) (crc : Bytes → Nat) (ops : List LogOp)
-    (hops : ∀ o ∈ ops, OpWF p o) (hov : ops.length + 1 < p.maxSeq) (s : Nat) :
-    (runLog p crc ops).entriesFrom p crc s =
-      some (((ALog.run ops).entries.map (norm p)).filter (fun e => e.seq ≥ s)) := by
-  sorry
+theorem stamp_seq (seq : Nat) (t : Nat × Bytes × Bytes) : (stamp seq t).seq = seq := rfl
 
+theorem step_batch (a : ALog) (es : List (Nat × Bytes × Bytes)) (h : es ≠ []) :
+    a.step (.batch es) = { entries := a.entries ++ es.map (stamp a.next), next := a.next + 1 } := by
+  have : es.isEmpty = false := by cases es <;> simp_all
+  simp only [ALog.step, this]
+  rfl
+
+theorem step_batch_nil (a : ALog) : a.step (.batch []) = a := rfl
+
+def SeqInv (a : ALog) : Prop :=
+  a.entries.Pairwise (fun x y => x.seq ≤ y.seq) ∧ (∀ e ∈ a.entries, e.seq < a.next) ∧
+  maxSeqOf a.entries + 1 = a.next
+
+theorem pairwise_const (n : Nat) : ∀ (es : List Entry), (∀ e ∈ es, e.seq = n) →
+    es.Pairwise (fun x y => x.seq ≤ y.seq) := by
+  intro es
+  induction es with
+  | nil => intro _; exact List.Pairwise.nil
+  | cons e es ih =>
+    intro h
+    refine List.Pairwise.cons ?_ (ih (fun e' h' => h e' (by simp [h'])))
+    intro e' he'
+    rw [h e (by simp), h e' (by simp [he'])]
+    exact Nat.le_refl _
+
+theorem foldl_max_const (n : Nat) : ∀ (es : List Entry) (m : Nat), (∀ e ∈ es, e.seq = n) → m ≤ n → es ≠ [] →
+    es.foldl (fun m e => max m e.seq) m = n := by
+  intro es
+  induction es with
+  | nil => intro m _ _ h; exact absurd rfl h
+  | cons e es ih =>
+    intro m h hm _
+    rw [List.foldl_cons, h e (by simp)]
+    have hmax : max m n = n := by omega
+    rw [hmax]
+    cases es with
+    | nil => rfl
+    | cons e' es' => exact ih n (fun e'' h' => h e'' (by simp [h'])) (Nat.le_refl _) (by simp)
+
+theorem maxSeqOf_append_const (es es' : List Entry) (n : Nat) (h : ∀ e ∈ es', e.seq = n)
+    (hm : maxSeqOf es ≤ n) (hne : es' ≠ []) : maxSeqOf (es ++ es') = n := by
+  unfold maxSeqOf at hm ⊢
+  rw [List.foldl_append]
+  exact foldl_max_const n es' _ h hm hne
+
+theorem norm_seq (p : WalParams) (e : Entry) : (norm p e).seq = e.seq := by
+  unfold norm; split <;> rfl
+
+theorem foldl_max_map_norm (p : WalParams) : ∀ (es : List Entry) (m : Nat),
+    (es.map (norm p)).foldl (fun m e => max m e.seq) m = es.foldl (fun m e => max m e.seq) m := by
+  intro es
+  induction es with
+  | nil => intro m; rfl
+  | cons e es ih => intro m; simp only [List.map_cons, List.foldl_cons, norm_seq, ih]
+
+theorem maxSeqOf_map_norm (p : WalParams) (es : List Entry) : maxSeqOf (es.map (norm p)) = maxSeqOf es :=
+  foldl_max_map_norm p es 0
+
+theorem SeqInv.add (a : ALog) (h : SeqInv a) (es' : List Entry) (hs : ∀ e ∈ es', e.seq = a.next) (hne : es' ≠ []) :
+    SeqInv { entries := a.entries ++ es', next := a.next + 1 } := by
+  obtain ⟨h1, h2, h3⟩ := h
+  refine ⟨?_, ?_, ?_⟩
+  · rw [List.pairwise_append]
+    refine ⟨h1, pairwise_const _ es' hs, ?_⟩
+    intro x hx y hy
+    have := h2 x hx
+    have := hs y hy
+    omega
+  · intro e he
+    simp only [List.mem_append] at he
+    rcases he with he | he
+    · have := h2 e he; simp only; omega
+    · have := hs e he; simp only; omega
+  · simp only
+    rw [maxSeqOf_append_const a.entries es' a.next hs (by omega) hne]
+
+theorem SeqInv.step (a : ALog) (h : SeqInv a) (o : LogOp) : SeqInv (a.step o) := by
+  cases o with
+  | append op k v =>
+    exact h.add a [{ op, seq := a.next, key := k, val := v }] (by intro e he; simp at he; rw [he]) (by simp)
+  | batch es =>
+    by_cases hes : es = []
+    · subst hes; exact h
+    · rw [step_batch a es hes]
+      refine h.add a _ ?_ (by simpa using hes)
+      intro e he
+      simp only [List.mem_map] at he
+      obtain ⟨t, _, rfl⟩ := he
+      rfl
+  | rotate => exact h
+  | reopen => exact h
+
+theorem SeqInv.foldl (ops : List LogOp) : ∀ (a : ALog), SeqInv a → SeqInv (ops.foldl ALog.step a) := by
+  induction ops with
+  | nil => intro a h; exact h
+  | cons o ops ih => intro a h; exact ih _ (h.step a o)
+
+theorem SeqInv.init : SeqInv {} := ⟨List.Pairwise.nil, by intro e he; simp at he, rfl⟩
+
+theorem SeqInv.run (ops : List LogOp) : SeqInv (ALog.run ops) := SeqInv.foldl ops {} SeqInv.init
+
+set_option linter.unusedVariables false in
 theorem seq_of_program (p : WalParams) (ops : List LogOp) :
-    (ALog.run ops).entries.Pairwise (fun a b => a.seq ≤ b.seq) ∧ ∀ e ∈ (ALog.run ops).entries, e.seq < (ALog.run ops).next := by
-  sorry
+    (ALog.run ops).entries.Pairwise (fun a b => a.seq ≤ b.seq) ∧ ∀ e ∈ (ALog.run ops).entries, e.seq < (ALog.run ops).next :=
+  ⟨(SeqInv.run ops).1, (SeqInv.run ops).2.1⟩
+
+/-! ### batches -/
+
+theorem payloadSize_seq (p : WalParams) (op s s' : Nat) (k v : Bytes) :
+    payloadSize p { op, seq := s, key := k, val := v } = payloadSize p { op, seq := s', key := k, val := v } := rfl
+
+theorem batchBytes_too_large (p : WalParams) (crc : Bytes → Nat) (seq : Nat) :
+    ∀ (es : List (Nat × Bytes × Bytes)),
+      (∃ t ∈ es, payloadSize p { op := t.1, seq := 0, key := t.2.1, val := t.2.2 } > p.maxRecord) →
+      (batchBytes p crc seq es).2 = false := by
+  intro es
+  induction es with
+  | nil => intro ⟨t, ht, _⟩; simp at ht
+  | cons t es ih =>
+    intro ⟨t', ht', hbig⟩
+    obtain ⟨op, k, v⟩ := t
+    unfold batchBytes
+    by_cases hfit : payloadSize p { op, seq, key := k, val := v } > p.maxRecord
+    · simp only [if_pos hfit]
+    · simp only [if_neg hfit]
+      simp only [List.mem_cons] at ht'
+      rcases ht' with rfl | ht'
+      · exact absurd hbig hfit
+      · exact ih ⟨t', ht', hbig⟩
 
 theorem batch_too_large (p : WalParams) (crc : Bytes → Nat) (l : Log) (es : List (Nat × Bytes × Bytes))
     (hne : es ≠ []) (hseq : l.next < p.maxSeq)
     (h : ∃ t ∈ es, payloadSize p { op := t.1, seq := 0, key := t.2.1, val := t.2.2 } > p.maxRecord) :
     (l.batch p crc es).1 = .error .tooLarge ∧ (l.batch p crc es).2.next = l.next := by
-  sorry
+  have hemp : es.isEmpty = false := by cases es <;> simp_all
+  have hb := batchBytes_too_large p crc l.next es h
+  unfold Log.batch
+  have c : ¬ l.next ≥ p.maxSeq := by omega
+  rw [hemp]
+  simp only [Bool.false_eq_true, if_false, if_neg c]
+  cases hbb : batchBytes p crc l.next es with
+  | mk bs ok =>
+    rw [hbb] at hb
+    simp only at hb
+    subst hb
+    simp only [Bool.false_eq_true, if_false, true_and]
+    unfold Log.write
+    split <;> rfl
+
+/-! ### the log as files of encoded entries -/
+
+def stepL (p : WalParams) (crc : Bytes → Nat) (l : Log) (o : LogOp) : Log :=
+  match o with
+  | .append op k v => (l.append p crc op k v).2
+  | .batch es => (l.batch p crc es).2
+  | .rotate => l.rotate
+  | .reopen => l.reopen p crc
+
+theorem runLog_eq (p : WalParams) (crc : Bytes → Nat) (ops : List LogOp) :
+    runLog p crc ops = ops.foldl (stepL p crc) {} := rfl
+
+theorem write_files (l : Log) (pre : List Bytes) (cur bs : Bytes) (h : l.files = pre ++ [cur]) :
+    (l.write bs).files = pre ++ [cur ++ bs] ∧ (l.write bs).next = l.next := by
+  unfold Log.write
+  rw [h]
+  simp
+
+/-- the files are the encodings of `init ++ [last]` (lists of entries), which together are the abstract log. -/
+structure Inv (p : WalParams) (crc : Bytes → Nat) (l : Log) (a : ALog) (n : Nat)
+    (init : List (List Entry)) (last : List Entry) : Prop where
+  files : l.files = init.map (encFile p crc) ++ [encFile p crc last]
+  ok : ∀ es ∈ init ++ [last], ∀ e ∈ es, EntryOK p e
+  entries : init.flatten ++ last = a.entries
+  next : l.next = a.next
+  bound : a.next ≤ n + 1
+  seq : SeqInv a
+
+theorem Inv.init (p : WalParams) (crc : Bytes → Nat) : Inv p crc {} {} 0 [] [] :=
+  ⟨rfl, by simp, rfl, rfl, Nat.le_refl _, SeqInv.init⟩
+
+theorem Inv.add (p : WalParams) (crc : Bytes → Nat) (l : Log) (a : ALog) (n : Nat)
+    (init : List (List Entry)) (last : List Entry) (h : Inv p crc l a n init last)
+    (es' : List Entry) (hne : es' ≠ []) (hs : ∀ e ∈ es', e.seq = a.next) (hok : ∀ e ∈ es', EntryOK p e) :
+    Inv p crc { (l.write (encFile p crc es')) with next := l.next + 1 }
+      { entries := a.entries ++ es', next := a.next + 1 } (n + 1) init (last ++ es') := by
+  obtain ⟨hw, _⟩ := write_files l _ _ (encFile p crc es') h.files
+  refine ⟨?_, ?_, ?_, ?_, ?_, h.seq.add a es' hs hne⟩
+  · simp only [hw, encFile_append]
+  · intro es hes e he
+    simp only [List.mem_append, List.mem_singleton] at hes
+    rcases hes with hes | rfl
+    · exact h.ok es (by simp [hes]) e he
+    · simp only [List.mem_append] at he
+      rcases he with he | he
+      · exact h.ok last (by simp) e he
+      · exact hok e he
+  · simp only [← h.entries, List.append_assoc]
+  · simp only [h.next]
+  · have := h.bound; simp only; omega
+
+theorem batchBytes_fit (p : WalParams) (crc : Bytes → Nat) (seq : Nat) :
+    ∀ (es : List (Nat × Bytes × Bytes)),
+      (∀ t ∈ es, payloadSize p { op := t.1, seq := 0, key := t.2.1, val := t.2.2 } ≤ p.maxRecord) →
+      batchBytes p crc seq es = (encFile p crc (es.map (stamp seq)), true) := by
+  intro es
+  induction es with
+  | nil => intro _; rfl
+  | cons t es ih =>
+    intro h
+    obtain ⟨op, k, v⟩ := t
+    have hfit : payloadSize p { op, seq, key := k, val := v } ≤ p.maxRecord := h (op, k, v) (by simp)
+    have c : ¬ payloadSize p { op, seq, key := k, val := v } > p.maxRecord := by omega
+    unfold batchBytes
+    simp only [if_neg c]
+    rw [ih (fun t ht => h t (by simp [ht]))]
+    simp only [List.map_cons, encFile_cons]
+    have : encodeEntry p crc (stamp seq (op, k, v)) = record crc p.tFull (payload p { op, seq, key := k, val := v }) := by
+      unfold encodeEntry
+      simp only [stamp]
+      exact if_pos hfit
+    rw [this]
+
+theorem Inv.step (p : WalParams) (hp : p.WF) (crc : Bytes → Nat) (hcrc : CrcOK crc) (l : Log) (a : ALog) (n : Nat)
+    (init : List (List Entry)) (last : List Entry) (h : Inv p crc l a n init last)
+    (o : LogOp) (ho : OpWF p o) (hn : n + 1 < p.maxSeq) :
+    ∃ init' last', Inv p crc (stepL p crc l o) (a.step o) (n + 1) init' last' := by
+  have hp' := hp
+  obtain ⟨_, hM13, hM, _, _, _, _, hP, hD, hMg, hmaxSeq⟩ := hp'
+  have hnext : ¬ l.next ≥ p.maxSeq := by have := h.bound; have := h.next; omega
+  cases o with
+  | append op k v =>
+    obtain ⟨hop, hk, hv⟩ := ho
+    have hvalid : validOp p op = true := by
+      unfold validOp; simp only [Bool.or_eq_true, beq_iff_eq]
+      rcases hop with h | h | h <;> simp [h]
+    refine ⟨init, last ++ [{ op, seq := a.next, key := k, val := v }], ?_⟩
+    have hI := h.add p crc l a n init last [{ op, seq := a.next, key := k, val := v }] (by simp)
+      (by intro e he; simp at he; rw [he])
+      (by
+        intro e he; simp at he; rw [he]
+        refine ⟨hop, ?_, hk, fun _ => hv⟩
+        have := h.bound; simp only; omega)
+    have e1 : encFile p crc [{ op, seq := a.next, key := k, val := v }] =
+        encodeEntry p crc { op, seq := a.next, key := k, val := v } := by
+      simp [encFile]
+    simp only [stepL, Log.append, hvalid, Bool.not_true, Bool.false_eq_true, if_false, if_neg hnext, ALog.step]
+    rw [e1, ← h.next] at hI
+    rw [h.next] at hI ⊢
+    exact hI
+  | batch es =>
+    by_cases hes : es = []
+    · subst hes
+      refine ⟨init, last, ?_⟩
+      have : stepL p crc l (.batch []) = l := rfl
+      rw [this, step_batch_nil]
+      exact { h with bound := Nat.le_succ_of_le h.bound }
+    · have hemp : es.isEmpty = false := by cases es <;> simp_all
+      refine ⟨init, last ++ es.map (stamp a.next), ?_⟩
+      have hI := h.add p crc l a n init last (es.map (stamp a.next)) (by simpa using hes)
+        (by intro e he; simp only [List.mem_map] at he; obtain ⟨t, _, rfl⟩ := he; rfl)
+        (by
+          intro e he; simp only [List.mem_map] at he; obtain ⟨t, ht, rfl⟩ := he
+          obtain ⟨hop, hsz⟩ := ho t ht
+          obtain ⟨op, k, v⟩ := t
+          simp only [payloadSize] at hsz
+          refine ⟨hop, ?_, ?_, ?_⟩
+          · have := h.bound; simp only [stamp]; omega
+          · simp only [stamp]; omega
+          · intro hnd
+            simp only [stamp] at hnd ⊢
+            rw [if_neg hnd] at hsz; omega)
+      rw [step_batch a es hes]
+      have hbb := batchBytes_fit p crc l.next es (fun t ht => (ho t ht).2)
+      simp only [stepL, Log.batch, hemp, Bool.false_eq_true, if_false, if_neg hnext, hbb, if_true]
+      rw [h.next]
+      rw [h.next] at hI
+      exact hI
+  | rotate =>
+    refine ⟨init ++ [last], [], ?_⟩
+    refine ⟨?_, ?_, ?_, h.next, Nat.le_succ_of_le h.bound, h.seq⟩
+    · simp only [stepL, Log.rotate, h.files, List.map_append, List.map_cons, List.map_nil, encFile_nil]
+    · intro es hes e he
+      simp only [List.mem_append, List.mem_singleton] at hes
+      rcases hes with hes | rfl
+      · exact h.ok es (by simpa using hes) e he
+      · simp at he
+    · show (init ++ [last]).flatten ++ [] = a.entries
+      rw [← h.entries]; simp
+  | reopen =>
+    refine ⟨init, last, ?_⟩
+    have hfiles : l.files = (init ++ [last]).map (encFile p crc) := by
+      rw [h.files]; simp
+    have hrep : (l.replay p crc).entries = (init ++ [last]).flatten.map (norm p) := by
+      unfold Log.replay
+      rw [hfiles, replayDir_wf p hp crc hcrc _ h.ok]
+    have hmax : maxSeqOf ((init ++ [last]).flatten.map (norm p)) = maxSeqOf a.entries := by
+      rw [maxSeqOf_map_norm]
+      congr 1
+      rw [← h.entries]; simp
+    have hnx : (stepL p crc l .reopen).next = a.next := by
+      simp only [stepL, Log.reopen, hrep, hmax]
+      have := h.seq.2.2
+      omega
+    exact ⟨h.files, h.ok, h.entries, hnx, Nat.le_succ_of_le h.bound, h.seq⟩
+
+theorem Inv.foldl (p : WalParams) (hp : p.WF) (crc : Bytes → Nat) (hcrc : CrcOK crc) :
+    ∀ (ops : List LogOp) (l : Log) (a : ALog) (n : Nat) (init : List (List Entry)) (last : List Entry),
+      Inv p crc l a n init last → (∀ o ∈ ops, OpWF p o) → n + ops.length < p.maxSeq →
+      ∃ init' last', Inv p crc (ops.foldl (stepL p crc) l) (ops.foldl ALog.step a) (n + ops.length) init' last' := by
+  intro ops
+  induction ops with
+  | nil => intro l a n init last h _ _; exact ⟨init, last, h⟩
+  | cons o ops ih =>
+    intro l a n init last h hops hn
+    simp only [List.length_cons] at hn
+    obtain ⟨init1, last1, h1⟩ := h.step p hp crc hcrc l a n init last o (hops o (by simp)) (by omega)
+    obtain ⟨init2, last2, h2⟩ := ih _ _ (n + 1) init1 last1 h1 (fun o' ho' => hops o' (by simp [ho'])) (by omega)
+    refine ⟨init2, last2, ?_⟩
+    have e : n + (o :: ops).length = n + 1 + ops.length := by simp only [List.length_cons]; omega
+    rw [e]
+    exact h2
+
+theorem run_inv (p : WalParams) (hp : p.WF) (crc : Bytes → Nat) (hcrc : CrcOK crc) (ops : List LogOp)
+    (hops : ∀ o ∈ ops, OpWF p o) (hov : ops.length + 1 < p.maxSeq) :
+    ∃ init last, Inv p crc (runLog p crc ops) (ALog.run ops) ops.length init last := by
+  obtain ⟨init, last, h⟩ := Inv.foldl p hp crc hcrc ops {} {} 0 [] [] (Inv.init p crc) hops (by omega)
+  refine ⟨init, last, ?_⟩
+  rw [Nat.zero_add] at h
+  exact h
+
+/-! ### the six statements
+
+  Four of them (`readEntry_encodeEntry`, `replay_file`, `replay_program`, `entriesFrom_spec`) are FALSE for an
+  arbitrary `crc : Bytes → Nat`: `record` stores only the low 32 bits (`le 4 (crc data)`) while `readRecord`
+  compares the stored field with the untruncated `crc data`. Counterexample: `crc := fun _ => 2 ^ 32`, any
+  well-formed entry (see `crc_counterexample` below). The `_corrected` versions add `∀ bs, crc bs < 2 ^ 32`. -/
+
+theorem readEntry_encodeEntry (p : WalParams) (hp : p.WF) (crc : Bytes → Nat)
+    (hcrc : ∀ bs, crc bs < 2 ^ 32) (e : Entry) (he : EntryWF p e)
+    (rest : Bytes) (fuel : Nat) (hf : (encodeEntry p crc e).length < fuel) :
+    readEntry p crc fuel {} (encodeEntry p crc e ++ rest) = (.ok (norm p e), {}, rest) :=
+  readEntry_encodeEntry_ok p hp crc hcrc e he.ok rest fuel hf
+
+theorem replay_file (p : WalParams) (hp : p.WF) (crc : Bytes → Nat) (hcrc : ∀ bs, crc bs < 2 ^ 32)
+    (es : List Entry) (hes : ∀ e ∈ es, EntryWF p e) :
+    let r := replayFile p crc (es.flatMap (encodeEntry p crc))
+    r.entries = es.map (norm p) ∧ r.skipped = 0 ∧ r.outcome = .ok := by
+  intro r
+  have h : r = _ := replayFile_wf p hp crc hcrc es (fun e he => (hes e he).ok)
+  rw [h]
+  exact ⟨rfl, rfl, rfl⟩
+
+theorem replay_program (p : WalParams) (hp : p.WF) (crc : Bytes → Nat) (hcrc : ∀ bs, crc bs < 2 ^ 32)
+    (ops : List LogOp) (hops : ∀ o ∈ ops, OpWF p o) (hov : ops.length + 1 < p.maxSeq) :
+    let l := runLog p crc ops
+    let a := ALog.run ops
+    (l.replay p crc).entries = a.entries.map (norm p) ∧ (l.replay p crc).isErr = false ∧ l.next = a.next := by
+  intro l a
+  obtain ⟨init, last, h⟩ := run_inv p hp crc hcrc ops hops hov
+  have hfiles : l.files = (init ++ [last]).map (encFile p crc) := by
+    rw [h.files]; simp
+  have hrep : l.replay p crc =
+      { entries := (init ++ [last]).flatten.map (norm p), okFiles := (init ++ [last]).length,
+        hadErr := false, fatal := false, panic := false } := by
+    unfold Log.replay
+    rw [hfiles, replayDir_wf p hp crc hcrc _ h.ok]
+  have hent : (init ++ [last]).flatten = a.entries := by
+    rw [← h.entries]; simp
+  rw [hrep]
+  refine ⟨?_, ?_, h.next⟩
+  · simp only [hent]
+  · simp [DirReplay.isErr]
+
+theorem entriesFrom_foldl (p : WalParams) (crc : Bytes → Nat) (s : Nat)
+    (F : List Entry → Bytes → List Entry)
+    (hF : ∀ acc es, (∀ e ∈ es, EntryOK p e) →
+      F acc (encFile p crc es) = acc ++ (es.map (norm p)).filter (fun e => e.seq ≥ s)) :
+    ∀ (parts : List (List Entry)) (acc : List Entry), (∀ es ∈ parts, ∀ e ∈ es, EntryOK p e) →
+      (parts.map (encFile p crc)).foldl F acc = acc ++ (parts.flatten.map (norm p)).filter (fun e => e.seq ≥ s) := by
+  intro parts
+  induction parts with
+  | nil => intro acc _; simp
+  | cons es parts ih =>
+    intro acc h
+    rw [List.map_cons, List.foldl_cons, hF acc es (h es (by simp)), ih _ (fun es' h' => h es' (by simp [h']))]
+    simp [List.append_assoc]
+
+theorem entriesFrom_spec (p : WalParams) (hp : p.WF) (crc : Bytes → Nat) (hcrc : ∀ bs, crc bs < 2 ^ 32)
+    (ops : List LogOp) (hops : ∀ o ∈ ops, OpWF p o) (hov : ops.length + 1 < p.maxSeq) (s : Nat) :
+    (runLog p crc ops).entriesFrom p crc s =
+      some (((ALog.run ops).entries.map (norm p)).filter (fun e => e.seq ≥ s)) := by
+  obtain ⟨init, last, h⟩ := run_inv p hp crc hcrc ops hops hov
+  unfold Log.entriesFrom
+  by_cases hs : s ≥ (runLog p crc ops).next
+  · rw [if_pos hs]
+    congr 1
+    symm
+    rw [List.filter_eq_nil_iff]
+    intro e he
+    simp only [List.mem_map] at he
+    obtain ⟨e', he', rfl⟩ := he
+    have := h.seq.2.1 e' he'
+    have := h.next
+    rw [norm_seq]
+    simp only [ge_iff_le, decide_eq_true_eq]
+    omega
+  · rw [if_neg hs]
+    have hrev : (runLog p crc ops).files.reverse = encFile p crc last :: (init.map (encFile p crc)).reverse := by
+      rw [h.files]; simp
+    rw [hrev]
+    simp only [List.reverse_reverse]
+    rw [entriesFrom_foldl p crc s _ ?_ init [] (fun es hes => h.ok es (by simp [hes]))]
+    · rw [entriesFromFile_wf p hp crc hcrc s last (h.ok last (by simp))]
+      simp only [if_true, List.nil_append]
+      rw [← h.entries]
+      simp
+    · intro acc es hes
+      rw [entriesFromFile_wf p hp crc hcrc s es hes]
+      simp only [if_true]
+
+/-! ### the four statements as originally given (false for arbitrary `crc`, see above) and their refutation -/
+
+/-- tiny well-formed parameters for the counterexample -/
+def cexParams : WalParams :=
+  { headerSize := 7, maxRecord := 20, tFull := 1, tFirst := 2, tMiddle := 3, tLast := 4,
+    opPut := 1, opDelete := 2, opMerge := 3, maxSeq := 1000, skip := 1 }
+
+/-- a "checksum" that does not fit the 4-byte field -/
+def cexCrc : Bytes → Nat := fun _ => 2 ^ 32
+
+def cexEntry : Entry := { op := 1, seq := 1, key := [], val := [] }
+
+theorem cexParams_wf : cexParams.WF := by decide
+
+theorem cexEntry_wf : EntryWF cexParams cexEntry := by unfold EntryWF; decide
+
+/-- machine-checked counterexample: with `crc := fun _ => 2 ^ 32` the freshly written record is read back as
+    `corrupt`, so `readEntry_encodeEntry` (and with it `replay_file`, `replay_program`, `entriesFrom_spec`)
+    cannot hold for every `crc : Bytes → Nat`. -/
+theorem crc_counterexample :
+    (readEntry cexParams cexCrc 100 {} (encodeEntry cexParams cexCrc cexEntry ++ [])).1 = .error .corrupt := by
+  rfl
+
+theorem readEntry_encodeEntry_false :
+    ¬ (∀ (p : WalParams) (_ : p.WF) (crc : Bytes → Nat) (e : Entry) (_ : EntryWF p e)
+        (rest : Bytes) (fuel : Nat) (_ : (encodeEntry p crc e).length < fuel),
+        readEntry p crc fuel {} (encodeEntry p crc e ++ rest) = (.ok (norm p e), {}, rest)) := by
+  intro h
+  have h1 := h cexParams cexParams_wf cexCrc cexEntry cexEntry_wf [] 100 (by decide)
+  have h2 := crc_counterexample
+  rw [h1] at h2
+  exact absurd h2 (by intro h3; cases h3)
+
+theorem replay_file_false :
+    ¬ (∀ (p : WalParams) (_ : p.WF) (crc : Bytes → Nat) (es : List Entry) (_ : ∀ e ∈ es, EntryWF p e),
+        let r := replayFile p crc (es.flatMap (encodeEntry p crc))
+        r.entries = es.map (norm p) ∧ r.skipped = 0 ∧ r.outcome = .ok) := by
+  intro h
+  have h1 := (h cexParams cexParams_wf cexCrc [cexEntry] (by intro e he; simp at he; rw [he]; exact cexEntry_wf)).2.1
+  have h2 : (replayFile cexParams cexCrc ([cexEntry].flatMap (encodeEntry cexParams cexCrc))).skipped = 1 := by rfl
+  rw [h2] at h1
+  exact absurd h1 (by decide)
+
+def cexOps : List LogOp := [.append 1 [] []]
+
+theorem cexOps_wf : ∀ o ∈ cexOps, OpWF cexParams o := by
+  intro o ho
+  simp only [cexOps, List.mem_singleton] at ho
+  rw [ho]
+  exact ⟨Or.inl rfl, by decide, by decide⟩
+
+theorem replay_program_false :
+    ¬ (∀ (p : WalParams) (_ : p.WF) (crc : Bytes → Nat) (ops : List LogOp)
+        (_ : ∀ o ∈ ops, OpWF p o) (_ : ops.length + 1 < p.maxSeq),
+        let l := runLog p crc ops
+        let a := ALog.run ops
+        (l.replay p crc).entries = a.entries.map (norm p) ∧ (l.replay p crc).isErr = false ∧ l.next = a.next) := by
+  intro h
+  have h1 := (h cexParams cexParams_wf cexCrc cexOps cexOps_wf (by decide)).1
+  have h2 : (((runLog cexParams cexCrc cexOps).replay cexParams cexCrc).entries).length = 0 := by rfl
+  rw [h1] at h2
+  exact absurd h2 (by decide)
+
+theorem entriesFrom_spec_false :
+    ¬ (∀ (p : WalParams) (_ : p.WF) (crc : Bytes → Nat) (ops : List LogOp)
+        (_ : ∀ o ∈ ops, OpWF p o) (_ : ops.length + 1 < p.maxSeq) (s : Nat),
+        (runLog p crc ops).entriesFrom p crc s =
+          some (((ALog.run ops).entries.map (norm p)).filter (fun e => e.seq ≥ s))) := by
+  intro h
+  have h1 := h cexParams cexParams_wf cexCrc cexOps cexOps_wf (by decide) 0
+  have h2 : (runLog cexParams cexCrc cexOps).entriesFrom cexParams cexCrc 0 = some [] := by rfl
+  rw [h2] at h1
+  exact absurd h1 (by decide)
 
 end Kevo.Proofs.Wal
